@@ -369,7 +369,7 @@ Proof.
   destruct (matched_queues _ _ _) as [|q1 qs]; cbn [fst]; [apply CI_add_confirm; auto|].
   apply fold_left_preserves.
   - intros s0 qn H0. assert (H1 : CI (queue_push s0 qn u)) by (same_conns; auto).
-    destruct (get_msg _ u); auto. destruct (_ && _)%bool; auto. apply CI_add_confirm; auto.
+    unfold push_one. destruct (get_msg (queue_push s0 qn u) u); auto. destruct (_ && _)%bool; auto. apply CI_add_confirm; auto.
   - destruct (_ && _)%bool; [same_conns|]; auto.
 Qed.
 
@@ -576,16 +576,14 @@ Proof.
     pose proof (CI_vhost_delete_queue (negb (fx_delete_checks_first fx)) _ qn false false H0) as Hd.
     destruct (vhost_delete_queue _ (s <| autodel := rest |>) qn false false) as [[s1 e1] r1]. exact Hd.
   - (* LPersistTick *)
-    match goal with |- CI (fst (fold_left ?f ?l0 ?a)) =>
-      assert (Hg : forall ks acc, CI (fst acc) -> CI (fst (fold_left f ks acc))) end.
-    { induction ks as [|k t IH]; intros acc Ha; simpl; auto. apply IH. destruct acc as [s0 e0]. cbn [fst] in *.
-      destruct (get_msg s0 (fst k)) as [m|]; auto. destruct (m_conf m); auto. cbn [fst]. repeat same_conns. auto. }
-    apply Hg. cbn [fst]. repeat same_conns. auto.
+    cbn [fst]. apply fold_left_preserves.
+    + intros s0 k H0. eapply allch_same_conns; [apply conns_store_confirm|exact H0].
+    + repeat same_conns. auto.
   - (* LRelay *)
     destruct (relay s) as [|u rest]; [exact H|].
     assert (H0 : CI (s <| relay := rest |>)) by (same_conns; auto).
     destruct (get_msg _ u) as [m|]; cbn [fst]; auto.
-    destruct (_ =? _)%Z; cbn [fst]; auto. destruct (m_conf m) as [[[? ?] ?]|]; cbn [fst]; auto. apply CI_add_confirm; auto.
+    destruct (m_conf m) as [[[? ?] ?]|]; cbn [fst]; auto. apply CI_add_confirm; auto.
   - (* LConfirmTick *)
     destruct (get_chan s c h) as [ch|] eqn:Ech; [|exact H]. destruct (negb _); [exact H|].
     destruct (ch_status ch); cbn [fst]; (set_keep Ech H; auto).
